@@ -15,7 +15,7 @@ claimed = {
          "The lexer's dispatch tables (name normalisation, type, attribute introducers, event keys, priority/alert words) equal the documented grammar for every byte value; name/value/rate stores are dominated by their well-formedness guards (non-empty name, ParseFloat ok, not NaN, rate > 0 and finite); tags are non-empty and delimiter-free by construction; accept exits and the transition relation are the documented chain; Run re-initialises every per-line field.",
          "does not decide acceptance of exactly the grammar on all strings (offset arithmetic); documented tables are frozen in checker/c02.go; anchors by state-function name."),
  'C03': ("panic-obligation enumeration over the ingestion call-graph scope + abstract interpretation with a relational numeric domain queried at obligation points: wrap-aware linearisation of SSA definitions, dominating branch facts, length facts, memory versioning, Houdini loop invariants, join case-splitting, library models and named lemmas, decided by Fourier-Motzkin refutation; plus HTTP status path counting",
-         "Every index / slice / make / unchecked assertion / integer division / nested-map write / explicit abort reachable from the receiver, parser (lexer states, synchronous handler chain) and the two HTTP handlers is discharged or the check fails; header lengths are compared after widening; each request path writes exactly one status; a library result that comes with an error is used only after the error test; every Set built on an ingestion path has a member map; a slot taken on a channel in the HTTP receiver is returned on every path. Assumptions (lexer object invariant with its witnesses, line <= 65535 bytes, library contracts, configuration >= 1) are listed in the evidence.",
+         "Every index / slice / make / unchecked assertion / integer division / nested-map write / explicit abort reachable from the receiver, parser (lexer states, synchronous handler chain) and the two HTTP handlers is discharged or the check fails; header lengths are compared after widening; each request path writes exactly one status; a library result that comes with an error is used only after the error test; every Set built on an ingestion path has a member map; a slot taken on a channel in the HTTP receiver is returned on every path; only the two attribute states end a line without an error (so the parser never sees a line with neither metric nor event). Assumptions (lexer object invariant with its witnesses, line <= 65535 bytes, library contracts, configuration >= 1) are listed in the evidence.",
          "nil dereferences other than the two enumerated kinds (library results before their error test, unpopulated pointer batches), closed-channel sends, memory exhaustion and liveness are not covered; third-party code trusted; the lexer invariant is assumed at entries/loop heads/after helper calls (Stage A) with establishment and preservation witnesses."),
  'C04': ("the same obligation engine (linear facts + Fourier-Motzkin + Houdini invariants + preconditions checked at call sites) over the flush scope: aggregator Flush/Process/Reset, histogram helpers, flusher, all nine backends' SendMetricsAsync and everything they call in the module",
          "All 120+ panic obligations of the flush path are discharged for every configuration in the quantifier (|p| <= 100 as lemma L1, histogram limit >= 0, persisted idle series via 'len >= 0 unless guarded'); preconditions such as 'bucket map non-empty' are proved at every call site.",
@@ -24,7 +24,7 @@ claimed = {
          "The no-aliasing clause is decided for every input by types (no reachable type can hold a byte buffer, no unsafe); tag buffers never alias earlier lines' tags; New* constructors copy tags; the datagram buffer is released after parsing; one parse per line with bad-line accounting; timestamps/sources/host-tag handling; equal-timestamp gauge lines resolve to the later line.",
          "'datagram = concatenation of its lines' as an equation is not decided; go/types."),
  'C14': ("table extraction from composite literals and switches on both sides + inverse/bijection comparison + protobuf struct-tag coverage + guard dominance in the HTTP handlers + pooled-buffer escape rule",
-         "Encoder and decoder field tables are mutual inverses for the four metric types and events; every protobuf field is written and read; priority/alert switches are inverse bijections on all declared constants; each compressor's Content-Encoding selects the matching decompressor; dispatch is dominated by successful read/decompress/unmarshal and every handler path writes exactly one status; no request body aliases a pooled buffer; the request body is read to its end; encoded series own their slices.",
+         "Encoder and decoder field tables are mutual inverses for the four metric types and events; every protobuf field is written and read; priority/alert switches are inverse bijections on all declared constants; each compressor's Content-Encoding selects the matching decompressor; dispatch is dominated by successful read/decompress/unmarshal and every handler path writes exactly one status; no request body aliases a pooled buffer; the request body is read to its end; encoded series own their slices and the series of one name share that name's entry.",
          "protobuf, zlib and lz4 round-trip behaviour is trusted."),
  'C15': ("acquire/release pairing and exactly-once counting on CFGs + per-iteration event counting in the per-split loop + guard classification of the retry-loop counters + slot take/put linearity + pooled-buffer escape rule",
          "Semaphores are balanced around the merging and posting goroutines; each split element yields exactly one request (or one notification) carrying that element's map and header tags; sent/dropped/retried/invalid are counted once on the right edge and success/give-up leave the loop; each attempt gets a fresh body reader; consolidator slots are put back exactly once and a flush hands over drained maps and refills with fresh ones; SplitByTags is a partition. The UTF-8 serialisability clause fails and is listed as a known finding.",
@@ -51,7 +51,7 @@ claimed = {
          "Handler and PodByIP indexer sit on the informer that lookups query; updates invalidate with the old object, deletes with the pod or the tombstone in the form client-go delivers; index and invalidation share predicate and key; memo writes/reads are locked and 'nothing' is never memoised; tag name = non-empty 'tag' group, else whole key, only for matching keys, every key being put to the regex; answers come only from the memo entry or the informer; id = namespace/name.",
          "informer event ordering (client-go) trusted; lookup/invalidation races not decided."),
  'C17': ("four-type traversal check + flag->field table extraction across seven backends (if-form and literal-table form) + batch open/close path counting + fresh-storage provenance after hand-over + limit-guard shape + writer/lexer table agreement",
-         "All builders traverse the four types; each disabled-subtype flag guards exactly its timer field in every backend; batches are closed on all exits and a handed-over batch is never written again; CloudWatch calls carry at most 20 data and advance; the relay tests the packet size before every write; relay suffixes, tag introducer, event header lengths (of exactly the strings written) and newline escaping agree with the lexer; JSON encoders are not configured for lossy floats.",
+         "All builders traverse the four types; each disabled-subtype flag guards exactly its timer field in every backend; batches are closed on all exits and a handed-over batch is never written again; CloudWatch calls carry at most 20 data and advance; the relay tests the packet size before every write; relay suffixes, tag introducer, event header lengths (of exactly the strings written) and newline escaping agree with the lexer; JSON encoders are not configured for lossy floats; graphite separates a tag at its first ':' only.",
          "payload syntax and number formatting are not decided."),
  'C18': ("canonicalisation of time expressions (root + multiset of durations, helpers inlined) and comparison with the required forms + name wiring + phi structure of the flusher loop",
          "Every tick value is Truncate(t - offset, interval) + offset (so tick - offset is a multiple of interval and not in the future); the initial wait is Truncate(now - offset, interval) + interval + offset - now, hence in (0, interval]; interval/offset/aligned are wired unchanged; the flusher reports thisFlush - lastFlush and advances.",
@@ -60,7 +60,7 @@ claimed = {
          "Each stage forwards an event once; the backend stage adds len(backends), starts one goroutine per backend on an acquired slot, compensates on cancellation, and Done/slot release are deferred before the send; parked events keep their count until handed on; each WaitForEvents waits its own group then the next stage; static and cloud tags precede forwarding; order parser -> cloud -> tags -> sink; field tables re-checked from C02/C14; the parser sets the sender address as source of every event.",
          "end-to-end delivery under concurrency is not decided as a history property."),
  'C06': ("purity (effect) analysis of Bucket + per-closure exactly-once store counting on the CFG + value-identity of the dispatch index in SSA",
-         "Bucket reads only its arguments and calls only adler32.Checksum; each Split/SplitByTags closure stores the element exactly once on every path under unchanged keys into the same-typed field of maps[Bucket(name,key,count)]; split i is sent to worker i and both are sized by one number; the worker table is read-only after construction. For every batch and shard count by construction of the code shape.",
+         "Bucket reads only its arguments and calls only adler32.Checksum; each Split/SplitByTags closure stores the element exactly once on every path under unchanged keys into the same-typed field of maps[Bucket(name,key,count)]; split i is sent to worker i and both are sized by one number; the worker table is read-only after construction and the dispatch loop visits every split. For every batch and shard count by construction of the code shape.",
          "go/ssa; adler32 determinism; the rule recognises the if/else insert idiom used today and fails closed on other shapes."),
  'C07': ("role-based discovery of merge sites (comma-ok lookup in map[string]T) + operator/guard classification on SSA with dominator facts and post-dominance",
          "Every merge site combines only with +, append, set insert, timestamp max or a newer-wins timestamp comparison, on every path of the found branch; not-found branches store the operand unchanged and agree with each other; every MetricMap traversal covers all four types.",
